@@ -17,7 +17,7 @@ import ast
 from .. import translate
 from ..translate import Untranslatable
 from .threshold import _expr, _find_func, _str_const
-from .tradeoff import _body, _int, _name, _single_assigns
+from .tradeoff import _body, _int, _name, _single_assigns, only_statements
 
 TOF = "fairlearn/postprocessing/_threshold_optimizer.py"
 BUNCH = ["p0", "operation0", "p1", "operation1"]
@@ -134,6 +134,8 @@ def _simple(tree):
     fn = _find_func(tree, "_threshold_optimization_for_simple_constraints")
     if [a.arg for a in fn.args.args] != ["self", "sensitive_features", "labels", "scores"]:
         raise U("simple: signature changed")
+    only_statements("_threshold_optimization_for_simple_constraints", _body(fn), allowed_expr_calls=("logger.debug",),
+                    Assign=14, AugAssign=1, For=2, Return=1)
     lo, hi, extra = _grid(fn)
     a, _ = _single_assigns(_body(fn))
     if not (isinstance(a.get("n"), ast.Call) and ast.unparse(a["n"]) == "len(labels)"):
@@ -198,6 +200,8 @@ def _eo(tree):
     fn = _find_func(tree, "_threshold_optimization_for_equalized_odds")
     if [a.arg for a in fn.args.args] != ["self", "sensitive_features", "labels", "scores"]:
         raise U("EO: signature changed")
+    only_statements("_threshold_optimization_for_equalized_odds", _body(fn), allowed_expr_calls=("logger.debug",),
+                    Assign=24, For=2, If=2, Return=1)
     grid = _grid(fn)
     lp, key, grp = _group_loop(fn)
     _curve_calls(fn, lp, key, grp, simple=False)
